@@ -14,6 +14,7 @@ import (
 	"strconv"
 	"strings"
 
+	"github.com/dominant-strategies/go-quai/common"
 	"github.com/dominant-strategies/go-quai/core/types"
 	"verifharness/chain"
 	"verifharness/mininet"
@@ -24,6 +25,8 @@ type shapeStep struct {
 	P  int    `json:"p"`  // mine: parent (relative block index within the shape, 0 = base)
 	B  int    `json:"b"`  // sethead: target
 }
+
+func verbose2() *bool { b := os.Getenv("DEBUG_SETHEAD") != ""; return &b }
 
 func fatal(code int, a ...interface{}) {
 	fmt.Fprintln(os.Stderr, a...)
@@ -43,6 +46,7 @@ func cmdRandom(args []string) {
 	verbose := fs.Bool("v", false, "")
 	followers := fs.String("followers", "", "comma list of back-ends for follower nodes that import every block (memory|leveldb|pebble)")
 	reexec := fs.String("reexec", "", "comma list of GOMAXPROCS values for re-executing each block before insertion")
+	lockups := fs.Bool("lockups", false, "contract-held coinbases ('cl' lockup records)")
 	trimspend := fs.Int("trimspend", 0, "attempts to spend a small output in exactly the block that trims it")
 	fresh := fs.Int("fresh", 0, "compare with a fresh node that only saw the canonical chain every N steps (and at the end)")
 	fs.Parse(args)
@@ -51,7 +55,7 @@ func cmdRandom(args []string) {
 	for d := range types.TrimDepths {
 		types.TrimDepths[d] = *trim
 	}
-	e, err := chain.Boot(chain.EnvOptions{Net: mininet.Options{Quiet: !*verbose, MinerPreference: 0.5, Backend: *backend, Dir: *dir, IndexAddressUtxos: *index}, Seed: uint64(*seed)})
+	e, err := chain.Boot(chain.EnvOptions{Net: mininet.Options{Quiet: !*verbose, MinerPreference: 0.5, Backend: *backend, Dir: *dir, IndexAddressUtxos: *index}, Seed: uint64(*seed), Lockups: *lockups})
 	if err != nil {
 		fatal(3, "boot:", err)
 	}
@@ -85,19 +89,35 @@ func cmdRandom(args []string) {
 		}
 	}
 	head := 0
+	aborted := ""
+	finish := func() {}
 	mine := func(parent, n int) int {
 		if n > 0 {
 			r.RandomContent(n)
 		}
 		id, err := r.MineOn(parent, -1)
 		if err != nil {
-			fatal(3, "mine:", err)
+			// the node could not extend its own chain: keep everything observed so far (the trace usually shows why)
+			aborted = "mine: " + err.Error()
+			finish()
+			os.Exit(0)
 		}
 		return id
 	}
+	finish = func() {
+		if *out != "" {
+			r.WriteEvents(*out)
+		}
+		sum := map[string]interface{}{"events": len(r.Events), "blocks": len(r.Blocks) - 1, "entries": r.NumEntries(), "problems": r.Problems, "backend": *backend,
+			"trimspend_realised": 0, "reexecutions": r.Reexecs, "follower_checks": r.FollowerChecks, "fresh_replays": r.FreshReplays, "aborted": aborted}
+		b, _ := json.Marshal(sum)
+		fmt.Println(string(b))
+	}
 	head, err = r.WarmUp()
 	if err != nil {
-		fatal(3, "warm-up:", err)
+		aborted = "warm-up: " + err.Error()
+		finish()
+		os.Exit(0)
 	}
 	realised := 0
 	for i := 0; i < *trimspend; i++ {
@@ -177,6 +197,27 @@ func cmdRandom(args []string) {
 			fatal(3, "fresh replay:", err)
 		}
 	}
+	if e.OwnerContract != nil && *verbose2() {
+		st, _ := e.Net.ZoneCore().Processor().State()
+		ia, _ := e.OwnerContract.InternalAddress()
+		fmt.Fprintf(os.Stderr, "owner contract %s code=%x nonce(deployer)=%d\n", e.OwnerContract.Hex(), st.GetCode(ia), st.GetNonce(func() common.InternalAddress { a, _ := e.Quai[len(e.Quai)-1].Addr.InternalAddress(); return a }()))
+		for h := uint64(1); h <= e.Height(); h++ {
+			b := e.Net.ZoneCore().GetBlockByNumber(h)
+			if b == nil {
+				continue
+			}
+			for i, tx := range b.Transactions() {
+				if tx.Type() == types.QuaiTxType && tx.To() == nil {
+					rs := e.Net.ZoneCore().Processor().GetReceiptsByHash(b.Hash())
+					fmt.Fprintf(os.Stderr, "creation tx in block %d idx %d status=%d gasUsed=%d contract=%s\n", h, i, rs[i].Status, rs[i].GasUsed, rs[i].ContractAddress.Hex())
+				}
+			}
+		}
+		blk := e.Net.ZoneCore().CurrentBlock()
+		for _, etx := range blk.OutboundEtxs() {
+			fmt.Fprintf(os.Stderr, "head outbound etx type=%d datalen=%d to=%s\n", etx.EtxType(), len(etx.Data()), etx.To().Hex())
+		}
+	}
 	w, err := os.Create(*out)
 	if err != nil {
 		fatal(3, err)
@@ -188,7 +229,7 @@ func cmdRandom(args []string) {
 	}
 	bw.Flush()
 	w.Close()
-	sum := map[string]interface{}{"events": len(r.Events), "blocks": len(r.Blocks) - 1, "entries": r.NumEntries(), "problems": r.Problems, "backend": *backend, "trimspend_realised": realised,
+	sum := map[string]interface{}{"events": len(r.Events), "blocks": len(r.Blocks) - 1, "entries": r.NumEntries(), "problems": r.Problems, "backend": *backend, "trimspend_realised": realised, "lockup_records": len(r.Prev.Lockups), "adversarial_qi_txs_offered": r.Adversarial, "lockup_entries_seen": r.LockupEntries(),
 		"reexecutions": r.Reexecs, "follower_checks": r.FollowerChecks, "fresh_replays": r.FreshReplays}
 	b, _ := json.Marshal(sum)
 	fmt.Println(string(b))
